@@ -52,14 +52,16 @@ Definition read_tok (p : param) (t : tok) : tout :=
   end.
 
 (* the module's read_parameters for an option parameter: ReadParameter, then the special case on the TEXT:
-   strict  - <Enum>.from_input_string(sValue) raises for anything but str(int_value);
+   strict  - <Enum>.from_input_string(sValue) raises "Unknown <enum label> input value: .." for anything but
+             str(int_value); named = the enum label contains the parameter's name ("Economic Model" does,
+             "Configuration" for 'Closed-loop Configuration' does not);
    else_to - an if / elif chain on sValue == '1', '2', ... whose final else assigns one fixed member (Fracture Shape:
              every text that is not exactly '1', '2' or '3' - "1.0", "2e0" - ends as member 4);
    neither - the integer is coerced later with from_int. *)
-Definition read_option (strict : bool) (else_to : option Z) (p : param) (t : tok) : tout :=
+Definition read_option (strict named : bool) (else_to : option Z) (p : param) (t : tok) : tout :=
   let conv (o : tout) : tout :=
     if is_canon t then o
-    else if strict then TErrAnon
+    else if strict then (if named then TRejectNamed (p_name p) else TErrAnon)
     else match else_to with Some m => TAccept (inject_Z m) | None => o end in
   match read_tok p t with
   | TAccept v => conv (TAccept v)
@@ -80,14 +82,14 @@ Definition tspec_option_ok (p : param) (t : tok) (o : tout) : bool :=
   tspec_ok p t o || (negb (is_canon t) && match o with TRejectNamed n => String.eqb n (p_name p) | _ => false end).
 
 (* ---- option table: (row of Gen/ParamTable, strict, int_value of every member of ValuesEnum) ---- *)
-Definition orow : Type := (nat * bool * option Z * list Z)%type.
+Definition orow : Type := (nat * bool * bool * option Z * list Z)%type.
 Definition memZb (n : Z) (l : list Z) : bool := existsb (Z.eqb n) l.
 Definition runs_members (rs : list (Z * Z)) : list Z :=
   flat_map (fun r => map (fun k => (fst r + Z.of_nat k)%Z) (seq 0 (Z.to_nat (snd r - fst r + 1)))) rs.
 (* every value of the AllowableRange is a member of the enum: from_input_string / from_int never fail on an accepted value *)
 Definition option_ok (t : list param) (r : orow) : bool :=
   match r with
-  | (i, _, _, ms) =>
+  | (i, _, _, _, ms) =>
       let p := nth i t dummy_param in
       pkind_eqb (p_kind p) KInt && forallb (fun n => memZb n ms) (runs_members (p_range p))
   end.
@@ -103,8 +105,8 @@ Definition bool_documented (s : string) : bool := in_words s false_words || in_w
 Close Scope string_scope.
 
 (* ---- harness cases ---- *)
-(* row, token, strict, else_to, observed outcome *)
-Definition tcase : Type := (nat * tok * bool * option Z * tout)%type.
+(* row, token, strict, named, else_to, observed outcome *)
+Definition tcase : Type := (nat * tok * bool * bool * option Z * tout)%type.
 Definition tout_eqb (a b : tout) : bool :=
   match a, b with
   | TAccept x, TAccept y => Qeq_bool x y
@@ -120,9 +122,9 @@ Definition tobs_eqb (p : param) (a b : tout) : bool :=
   | _, _ => tout_eqb a b
   end.
 Definition tcase_agrees (t : list param) (c : tcase) : bool :=
-  match c with (i, k, strict, e, o) => let p := nth i t dummy_param in tobs_eqb p (read_option strict e p k) o end.
+  match c with (i, k, strict, nm, e, o) => let p := nth i t dummy_param in tobs_eqb p (read_option strict nm e p k) o end.
 Definition tcase_spec (t : list param) (c : tcase) : bool :=
-  match c with (i, k, strict, _, o) => let p := nth i t dummy_param in
+  match c with (i, k, strict, _, _, o) => let p := nth i t dummy_param in
     if strict then tspec_option_ok p k o else tspec_ok p k o end.
 Definition run_tcases (f : list param -> tcase -> bool) (t : list param) (cs : list tcase) : nat * list nat :=
   (List.length cs, mismatches (f t) 0 cs).
